@@ -8,8 +8,7 @@
 (* boundary, so the deviations of part 1 advance the cursor by the record size.  *)
 EXTENDS Wire, TLC
 
-KnownIds == {"C13-KF1", "C13-KF2", "C13-KF3", "C13-KF4", "C13-KF5", "C13-KF6",
-             "C13-KF7", "C13-KF8", "C13-KF9", "C13-KF10", "C13-KF11", "C13-KF12"}
+KnownIds == {"C13-KF6"}
 
 HasTag(e, t) == "tags" \in DOMAIN e /\ \E i \in 1..Len(e.tags) : e.tags[i] = t
 AtCursor(e) == HasNext /\ e.at = off
